@@ -56,7 +56,9 @@ def topT (rs : List EinsumRename) (n : Name) : List Rename :=
   (rs.filter (fun er => er.name == n)).flatMap (·.tensorAccesses)
 def topR (rs : List EinsumRename) (n : Name) : List Rename :=
   (rs.filter (fun er => er.name == n)).flatMap (·.rankVariables)
-def topLevelFor (rs : List EinsumRename) (n : Name) : List Rename := topT rs n ++ topR rs n
+/-- every definition the top-level entries named `n` give, entry by entry in list order -/
+def topLevelFor (rs : List EinsumRename) (n : Name) : List Rename :=
+  (rs.filter (fun er => er.name == n)).flatMap (fun er => er.tensorAccesses ++ er.rankVariables)
 
 /-- all rename definitions that apply to Einsum `e`, most specific first -/
 def candidates (rs : List EinsumRename) (e : Einsum) : List Rename :=
@@ -71,8 +73,18 @@ def dedupRenames : List Rename → List Rename
   | [] => []
   | r :: rs => r :: (dedupRenames rs).filter (fun r' => !(r'.name == r.name))
 
+/-- No name is used both for a tensor rename and for a rank-variable rename in the top-level section.
+(The property does not say what a name given in both kinds means; such inputs are outside the
+domain of the judge.) -/
+def KindsDisjoint (rs : List EinsumRename) : Prop :=
+  ∀ er1 ∈ rs, ∀ er2 ∈ rs, ∀ r1 ∈ er1.tensorAccesses, ∀ r2 ∈ er2.rankVariables, r1.name ≠ r2.name
+
+/-- The renames evaluated for Einsum `e`, in evaluation order: the Einsum's own, then the tensor
+renames, then the rank-variable renames (per-Einsum entries before "default" ones, each in list
+order); the first definition of a name wins.  Under `KindsDisjoint` every name keeps the
+definition `resolve` selects (`effectiveSpec_find`). -/
 def effectiveSpec (rs : List EinsumRename) (e : Einsum) : List Rename :=
-  dedupRenames (candidates rs e)
+  dedupRenames (e.renames ++ (topT rs e.name ++ topT rs "default") ++ (topR rs e.name ++ topR rs "default"))
 
 /-! ## the pipeline with the specified precedence and the specified `Persistent` -/
 
@@ -108,11 +120,11 @@ def specPersistent (w : Workload) (rs : List EinsumRename) (e : Einsum) : Except
   pure (e.tensorNames.filter (fun t => isFlagged e t || sel.contains t))
 
 /-- Specified table the architecture sees for Einsum `e`: stage 1 with `Persistent` bound to the
-persistent tensors of `e`. -/
+persistent tensors of `e` (unless the user gave a rename called `Persistent`, which shadows it). -/
 def specTable (w : Workload) (rs : List EinsumRename) (e : Einsum) : Except Err Table := do
   let t ← specTable1 w rs e
   let p ← specPersistent w rs e
-  pure (insert t "Persistent" (tset e p))
+  if hasName (effectiveSpec rs e) "Persistent" then pure t else pure (insert t "Persistent" (tset e p))
 
 def specWorkload (w : Workload) (rs : List EinsumRename) :
     Except Err (List (Name × Table × List Name)) :=
